@@ -1456,6 +1456,23 @@ class SList:
             return v
         raise Unsupported("list.pop(%r) on symbolic list" % (i,))
 
+    def reverse(self):
+        """list.reverse(): a fresh sequence of the same length with seq'[j] == seq[n-1-j].  A contract that created the
+        list may have registered the reversed view it wants to reason about (ghost 'reversed_views': term id -> term);
+        it is then responsible for that view's relation to the list (stated in its trusted base)."""
+        c = ctx()
+        pre = c.ghost.get("reversed_views", {}).get(self.seq.get_id())
+        if pre is not None:
+            self.seq = pre
+            return None
+        n = z3.Length(self.seq)
+        new = z3.Const(c.fresh_name("reversed"), self.seq.sort())
+        j = z3.Int(c.fresh_name("rvq"))
+        c.assume(z3.Length(new) == n)
+        c.assume(z3.ForAll([j], z3.Implies(z3.And(j >= 0, j < n), new[j] == self.seq[n - 1 - j])))
+        self.seq = new
+        return None
+
     def remove(self, v):
         t = self.unwrap(v)
         u = z3.Unit(t)
